@@ -20,6 +20,7 @@ from harness.core import Prop
 
 SIGNALS = ['SIGINT', 'SIGTERM', 'SIGCHLD', 'SIGUSR1']      # = Spinner.sigNames in TTV/Model/Spinner.lean
 NH = 4                                                      # marker handlers per signal
+REAL_UNIT = 0.04                                            # seconds per time unit in the real-reactor scenarios
 
 
 def _mk_handler(s, h):
@@ -47,10 +48,22 @@ class C15(Prop):
             'ties between firing, timeout and stop are frequent; thorough adds the full grid term x (fire|fail at 1,2,3 before/inside f or '
             'at once) x (stop at 1,2,3 before/inside f or at once) x order x 0-2 leftovers with timeout 2, and two-run histories with and '
             'without clear_junk. non-trivial = some run is not refused and has a Deferred-returning f with at least one delayed fire/fail/stop, '
-            'or the history has a refused run; distinct = distinct input S-expression')
+            'or the history has a refused run; distinct = distinct input S-expression. 12 scenarios on the REAL Twisted reactor (feature '
+            'reactor:real) come first in the thorough enumeration, 5 of them are part of every quick run')
     assumptions = [
         'the reactor loop, DelayedCall ordering/cancellation and Deferred callback chaining (twisted) are modelled (TTV/Model/Reactor.lean), '
-        'not verified; the correspondence runs on harness/vreactor.py (a twisted Clock), not on a real reactor',
+        'not verified; the correspondence runs on harness/vreactor.py (a twisted Clock with the iteration semantics of '
+        'ReactorBase.runUntilCurrent) except for the real-reactor scenarios',
+        'REAL reactor: 12 smoke scenarios (sync return, sync raise, fires / fails well before the timeout, never fires, stop requested, '
+        'leftover junk cancelled and reported, re-entrant run refused, stale junk refused, signal handlers and reactor.stop restored, call '
+        'scheduled before run, fires after the timeout) run on twisted.internet.reactor, spun repeatedly (crash, never stop), with 40 ms '
+        'per time unit and distinct instants at least 2 units apart; an executed call is reported at its nominal delay, a run in which some '
+        'call was more than 0.9 unit late is repeated with a doubled unit (at most 3 times); the trace (order of the executed calls, '
+        'result, junk, what is left in the reactor, signal handlers) is compared with the model exactly as for the virtual reactor; the '
+        'process is left clean (no delayed calls, readers, writers; reactor not running). 5 scenarios in quick, all 12 in thorough',
+        'the Spinner model has no parameter for the obligatory shake-out iterations of _clean (_OBLIGATORY_REACTOR_ITERATIONS = 0 for the '
+        'plain Spinner; the model decides the result when the loop ends and then collects the junk): their interplay with the result is '
+        'covered by C14 (broken-Twisted variant), not here',
         'the signal module is modelled as a table handler-per-signal; the thread-pool branch of Spinner._clean is not exercised',
         'not_reentrant is modelled as: every nested call of Spinner.run raises ReentryError and changes nothing',
         'Spinner(debug=True) (DebugTwisted) is exercised but assumed to be unobservable',
@@ -65,10 +78,12 @@ class C15(Prop):
                 'StaleJunkError iff junk is uncleared and ReentryError for every nested call, both without any other change; after every run '
                 'the reactor is not running, has no delayed calls or selectables, reactor.stop and SIGINT/SIGTERM/SIGCHLD handlers are restored, '
                 'the junk is exactly the leftovers, the run lasts at most the timeout and its loop ends by a crash. The hand-written model is tied '
-                'to the real Spinner by a differential check on a virtual-time reactor (random histories + exhaustive timing grid) and by the '
-                'extracted _PRESERVED_SIGNALS table.',
+                'to the real Spinner by a differential check on a virtual-time reactor (random histories + exhaustive timing grid), by 12 smoke '
+                'scenarios on the real Twisted reactor and by the extracted _PRESERVED_SIGNALS table.',
         'note': 'trusted: Lean kernel, the models TTV/Model/Reactor.lean + Spinner.lean, the harness and harness/vreactor.py; the Twisted reactor '
-                'loop, DelayedCall, Deferred chaining and the signal module are modelled, not verified; real-reactor and thread-pool paths are not exercised',
+                'loop, DelayedCall, Deferred chaining and the signal module are modelled, not verified; real-reactor coverage = 12 smoke scenarios '
+                '(feature reactor:real: 5 per quick run, 12 per thorough run), everything else on the virtual-time reactor; the thread-pool '
+                'path of _clean is not exercised',
         'technique': 'Lean 4 invariant proofs over a discrete-event model (sorted call queue, fuelled reactor loop), executable spec shared with a '
                      'differential correspondence check against the real code on a virtual-time reactor',
     }
@@ -90,9 +105,18 @@ class C15(Prop):
         sigs = [getattr(signal, n) for n in SIGNALS]
         saved = [signal.getsignal(s) for s in sigs]
         try:
-            for s, sig in enumerate(sigs):
-                signal.signal(sig, HANDLERS[s][0])
-            return self._run(inp)
+            scale = REAL_UNIT
+            for attempt in range(4):
+                for s, sig in enumerate(sigs):
+                    signal.signal(sig, HANDLERS[s][0])
+                info = {}
+                trace = self._run(inp, scale, info)
+                if not info.get('disturbed'):
+                    return trace
+                # the real reactor ran a call late by most of a time unit (machine under load), so the order of the nominal
+                # scenario is not guaranteed: once more, with a longer unit
+                scale *= 2
+            return trace + [['real-reactor-disturbed', info['drift']]]
         except BaseException as e:
             if isinstance(e, KeyboardInterrupt):
                 raise
@@ -108,14 +132,40 @@ class C15(Prop):
             out.append(HANDLERS[s].index(h) if h in HANDLERS[s] else 99)
         return out
 
-    def _run(self, inp):
+    def _run(self, inp, real_unit, info):
         from twisted.internet import defer
         from twisted.internet.defer import AlreadyCalledError
         from testtools.twistedsupport import _spinner as S
         from harness.vreactor import VirtualReactor
-        debug, steps = inp
-        r = VirtualReactor()
+        debug, steps = inp[0], inp[1]
+        real = len(inp) > 2 and inp[2] == 'real'
+        if real:
+            # the REAL Twisted reactor, spun repeatedly by the Spinner (crash, never stop); delays in units of `real_unit` seconds;
+            # event times are reported as the nominal delay of the call that ran (order and outcome are observed, durations are not);
+            # the nominal order is the real order as long as every call runs less than one unit late (distinct instants are at
+            # least 2 units apart in the scenarios): the lateness is measured, a disturbed run is repeated by run_impl
+            from twisted.internet import reactor as r
+            scale = real_unit
+            if r.running or r.getDelayedCalls():
+                return ['real-reactor-not-clean']
+        else:
+            r = VirtualReactor()
+            scale = 1
         sp = S.Spinner(r, debug=debug)
+        real_events = []
+        if real:
+            timed_out = sp._timed_out          # instrumentation only: note when the spinner's own timeout call runs
+
+            def noting_timed_out(*a, **kw):
+                arrived(real_T[0])
+                real_events.append([real_T[0], 'timeout'])
+                return timed_out(*a, **kw)
+            sp._timed_out = noting_timed_out
+        real_T = [0]
+        drift = [0.0]
+
+        def arrived(delay):
+            drift[0] = max(drift[0], (r.seconds() - t0) / scale - delay)
         label = {}          # id(DelayedCall) -> label
         keep = []           # keeps the labelled objects alive (ids stay unique)
         timeouts = set()
@@ -159,6 +209,8 @@ class C15(Prop):
                         pass
                 elif kind == 'addsel':
                     def go():
+                        if real:
+                            raise ValueError('selectables are not used in the real-reactor scenarios')
                         r.selectables.append(Sel(l))
                 elif kind == 'setsig':
                     def go():
@@ -168,7 +220,7 @@ class C15(Prop):
                     def go():
                         inner = S.Spinner(r) if a[1] else sp
                         try:
-                            inner.run(1, lambda: None)
+                            inner.run(1 * scale, lambda: None)
                             reentries.append('returned')
                         except S.ReentryError:
                             reentries.append('reentry')
@@ -179,7 +231,13 @@ class C15(Prop):
                 return go
 
             def later(delay, l, a):
-                dc = r.callLater(delay, act(l, a))
+                go = act(l, a)
+                if real:
+                    def go(go=go):
+                        arrived(delay)
+                        real_events.append([delay, l])
+                        go()
+                dc = r.callLater(delay * scale, go)
                 label[id(dc)] = l
                 keep.append(dc)
 
@@ -192,7 +250,7 @@ class C15(Prop):
                     if op[0] == 'later':
                         later(op[1], p + j, op[2])
                     else:
-                        now_events.append([int(r.seconds() - t0), p + j])
+                        now_events.append([0 if real else int(r.seconds() - t0), p + j])
                         act(p + j, op[1])()
                 if term == 'deferred':
                     return d
@@ -202,10 +260,12 @@ class C15(Prop):
 
             stop0 = r.stop
             sig_before = self._cur_sigs()
-            n_exec = len(r.executed)
+            n_exec = 0 if real else len(r.executed)
+            del real_events[:]
+            real_T[0] = T
             tc_before = sp._timeout_call
             try:
-                x = sp.run(T, f)
+                x = sp.run(T * scale, f)
                 res = ['value', x] if type(x) is int else ['odd-value', type(x).__name__]
             except S.TimeoutError:
                 res = 'timeout'
@@ -222,11 +282,19 @@ class C15(Prop):
             if sp._timeout_call is not tc_before and sp._timeout_call is not None:
                 timeouts.add(id(sp._timeout_call))
                 keep.append(sp._timeout_call)
-            events = now_events + [[int(t - t0), 'timeout' if id(dc) in timeouts else label.get(id(dc), 'unknown')]
-                                   for t, dc in r.executed[n_exec:]]
+            if real:
+                arrived(max([e[0] for e in real_events] + [0]))      # the synchronous tail counts, too
+                events = now_events + [list(e) for e in real_events]
+                n_sel = len([x for x in r.getReaders() + r.getWriters() if x not in r._internalReaders])
+                elapsed = max([e[0] for e in real_events] + [0])
+            else:
+                events = now_events + [[int(t - t0), 'timeout' if id(dc) in timeouts else label.get(id(dc), 'unknown')]
+                                       for t, dc in r.executed[n_exec:]]
+                n_sel = len(r.selectables)
+                elapsed = int(r.seconds() - t0)
             obs = ['run', res, events, reentries, [jrepr(x) for x in sp.get_junk()], len(r.getDelayedCalls()),
-                   len(r.selectables), bool(r.running), r.stop == stop0, sig_before, self._cur_sigs(), int(r.seconds() - t0)]
-            if r.errors:
+                   n_sel, bool(r.running), r.stop == stop0, sig_before, self._cur_sigs(), elapsed]
+            if not real and r.errors:
                 obs.append(['reactor-errors'] + [type(e).__name__ for e in r.errors])
                 del r.errors[:]
             trace.append(obs)
@@ -235,7 +303,38 @@ class C15(Prop):
                 for dc in r.getDelayedCalls():
                     dc.cancel()
             d.addErrback(lambda failure: None)     # an orphaned failed Deferred shall not log at collection
+        if real:
+            for dc in r.getDelayedCalls():          # leave the process clean whatever happened
+                dc.cancel()
+            info['drift'] = round(drift[0], 2)
+            info['disturbed'] = drift[0] > 0.9
         return trace
+
+    # ----- scenarios on the real reactor (events at least 2 units apart, so that their order is robust under load)
+    REAL = [
+        ('sync-return', [['run', 4, [], [], ['ret', 7]]], True),
+        ('sync-raise', [['run', 4, [], [], ['raise', 3]]], True),
+        ('fires-before-timeout', [['run', 6, [], [['later', 2, ['fire', 5]]], 'deferred']], True),
+        ('fails-before-timeout', [['run', 6, [], [['later', 2, ['fail', 3]]], 'deferred']], False),
+        ('never-fires', [['run', 3, [], [['later', 8, 'noop']], 'deferred'], 'clear'], False),
+        ('stop-requested', [['run', 6, [[2, 'stop']], [], 'deferred'], 'clear'], False),
+        ('leftover-becomes-junk', [['run', 6, [], [['later', 2, ['fire', 1]], ['later', 8, 'noop']], 'deferred'], 'clear',
+                                   ['run', 4, [], [], ['ret', 2]]], False),
+        ('reentry-refused', [['run', 8, [], [['now', ['reenter', False]], ['later', 2, ['reenter', True]], ['later', 4, ['fire', 6]]],
+                              'deferred']], False),
+        ('stale-junk-refused', [['run', 4, [], [['later', 9, 'noop']], ['ret', 1]], ['run', 4, [[3, 'noop']], [], ['ret', 2]], 'clear',
+                                ['run', 4, [], [], ['ret', 3]]], True),
+        ('signals-restored', [['run', 8, [], [['now', ['setsig', 0, 2]], ['later', 2, ['setsig', 2, 3]], ['now', ['setsig', 3, 1]],
+                                             ['later', 4, ['fire', 4]]], 'deferred']], False),
+        ('scheduled-before-run', [['run', 6, [[2, ['fire', 1]]], [['later', 4, 'noop']], 'deferred'], 'clear'], False),
+        ('fires-after-timeout', [['run', 2, [], [['later', 5, ['fire', 9]]], 'deferred'], 'clear'], True),
+    ]
+
+    def real_inputs(self, quick_only):
+        return [[False, steps, 'real'] for _, steps, quick in self.REAL if quick or not quick_only]
+
+    def corpus(self):
+        return Prop.corpus(self) + self.real_inputs(True)
 
     # ----- generators
     def gen_act(self, rng, main=True):
@@ -281,6 +380,8 @@ class C15(Prop):
         return [rng.random() < 0.2, steps]
 
     def enumerate(self, tier):
+        for inp in self.real_inputs(False):
+            yield inp
         T = 2
         fires = [None] + [(where, d, k) for where in ('pre', 'body') for d in (1, 2, 3) for k in ('fire', 'fail')] + \
                 [('now', 0, 'fire'), ('now', 0, 'fail')]
@@ -335,7 +436,7 @@ class C15(Prop):
         return False
 
     def features(self, inp, trace):
-        f = ['steps=%d' % len(inp[1]), 'runs=%d' % len(self._runs(inp))]
+        f = ['steps=%d' % len(inp[1]), 'runs=%d' % len(self._runs(inp)), 'reactor:' + ('real' if len(inp) > 2 else 'virtual')]
         if inp[0]:
             f.append('debug')
         if not isinstance(trace, list) or (trace and trace[0] == 'raised'):
@@ -363,6 +464,10 @@ class C15(Prop):
         return f
 
     def shrink(self, inp):
+        for cand in self._shrink2(inp[:2]):
+            yield cand + inp[2:]
+
+    def _shrink2(self, inp):
         debug, steps = inp
         for i in range(len(steps)):
             yield [debug, steps[:i] + steps[i + 1:]]
